@@ -3,8 +3,8 @@
 set -e
 P="$1"; MSG="$2"
 cd /repo
-if ! git apply --check "$P" 2>/dev/null; then echo "DOES-NOT-APPLY $P"; exit 3; fi
-git apply "$P"
+if ! git apply -C1 --check "$P" 2>/dev/null; then echo "DOES-NOT-APPLY $P"; exit 3; fi
+git apply -C1 "$P"
 if cmake --build _build -j8 >/var/tmp/apply_fix_build.log 2>&1 && ctest --test-dir _build -j8 --timeout 900 >/var/tmp/apply_fix_test.log 2>&1; then
   git commit -q -am "fix: $MSG"
   echo "COMMITTED $(git log --format=%h -1) fix: $MSG"
